@@ -159,6 +159,33 @@ Fixpoint corr_hist (o : wobj) (uses : list (scen * nat * list nat)) (d : dir) (n
       (if finishedt p then corr_hist o r d' ns else [])
   end.
 
+(** ** The attribute state a use leaves behind (correspondence with [vars()] of the real object)
+
+    The harness abstracts the instance attributes of the real object after [__init__], inside the body of every
+    [with] block and after every [__exit__] into [astate]s ([None] = a value outside [xval] / unbound) and asks whether
+    the model agrees: [entered] must give the state inside the body, and [__exit__] run from that state, its calls
+    answering as they did in the real run ([oracle], in the encoding of [walk]), must end in the observed state. *)
+Definition oval_eqb (a b : option xval) : bool :=
+  match a, b with Some v, Some w => xval_eqb v w | None, None => true | _, _ => false end.
+Fixpoint astate_eqb (a b : astate) : bool :=
+  match a, b with
+  | v :: vs, w :: ws => oval_eqb v w && astate_eqb vs ws
+  | [], [] => true
+  | _, _ => false
+  end.
+Definition env_state (attrs : list nat) (e : xenv) : astate := map e attrs.
+Definition exit_leaves (o : wobj) (mid : astate) (exc : bool) (oracle : list nat) (obs : astate) : bool :=
+  Nat.eqb (snd (walk (exec (o_prog o) None (env_of (o_attrs o) mid exc)
+                           (fun e _ => XDone (astate_eqb (env_state (o_attrs o) e) obs))) oracle)) 1.
+(** One use: state before, body raised?, results of the calls of [__exit__], observed state inside the body and
+    afterwards -> [entry agrees; exit agrees]. *)
+Definition corr_attrs_use (o : wobj) (u : astate * bool * list nat * astate * astate) : list bool :=
+  let '(a, exc, oracle, mid, obs) := u in
+  [astate_eqb (entered o a) mid; exit_leaves o (entered o a) exc oracle obs].
+Definition corr_attrs (o : wobj) (init : astate) (uses : list (astate * bool * list nat * astate * astate))
+  : list (list bool) :=
+  [astate_eqb (o_init o) init] :: map (corr_attrs_use o) uses.
+
 (** ** Example objects *)
 (** Today's class: no attribute besides the temp handle, the temp name and the destination. *)
 Definition obj_fixed : wobj :=
